@@ -129,16 +129,20 @@ func init() {
 		certPEM := m.concreteBytes(a[0], "tls.X509KeyPair")
 		keyPEM := m.concreteBytes(a[1], "tls.X509KeyPair")
 		ct := fn.Signature.Results().At(0).Type()
-		if _, err := tls.X509KeyPair(certPEM, keyPEM); err != nil {
+		pair, err := tls.X509KeyPair(certPEM, keyPEM)
+		if err != nil {
 			return TupleV{zero(ct), m.opaqueError(err.Error())}
 		}
-		// a non-zero certificate: its chain holds one (opaque) DER block
+		// the certificate chain with its real DER blocks (the private key and the parsed leaf stay opaque)
 		sv := zero(ct).(*StructV)
 		nf := append([]Value(nil), sv.F...)
 		ci, _ := structFieldIndex(ct, "Certificate")
-		inner := m.bytesValue([]byte{0x30})
-		id := m.st.alloc(&ArrayV{E: []Value{inner}}, nil)
-		nf[ci] = SliceV{Obj: id, Len: 1, Cap: 1}
+		es := make([]Value, len(pair.Certificate))
+		for i, der := range pair.Certificate {
+			es[i] = m.bytesValue(der)
+		}
+		id := m.st.alloc(&ArrayV{E: es}, nil)
+		nf[ci] = SliceV{Obj: id, Len: len(es), Cap: len(es)}
 		return TupleV{&StructV{F: nf}, IfaceV{}}
 	})
 }
